@@ -161,7 +161,7 @@ def main(a):
             report("replay", "got %r (%s)" % (o[0][-120:], o[1]), rp)
         return v.finish()
 
-    ncases = 60 if quick else 2500
+    ncases = 60 if quick else 10000
     progs, metas, lines = [], [], []
     for k in range(ncases):
         prefix = "k%d" % k
